@@ -98,7 +98,16 @@ type ArgLists struct {
 	PL *[]string
 	RO AllOpt
 	LO []AllOpt
+	// lists of byte-wide named types (a []byte is the base64 "bytes" scalar; these are lists)
+	LU8 []Level8
+	LE8 []EnumU8
+	LB  [][]byte
 }
+
+type Level8 uint8
+type EnumU8 uint8
+
+var enumU8Map = map[string]EnumU8{"LOW": 1, "MID": 2, "HIGH": 250}
 
 // Tree is an input object that refers to itself (through a list of pointers and through a
 // pointer), with fields declared before and after the self-references.
@@ -133,6 +142,7 @@ var schema *graphql.Schema
 func init() {
 	s := schemabuilder.NewSchema()
 	s.Enum(EnumA(0), enumAMap)
+	s.Enum(EnumU8(0), enumU8Map)
 	q := s.Query()
 	q.FieldFunc("scalars", func(a ArgScalars) bool { record(a); return true })
 	q.FieldFunc("ptrs", func(ctx context.Context, a ArgPtrs) bool { record(a); return true })
@@ -232,6 +242,10 @@ func genFor(t *rapid.T, typ reflect.Type, depth int, allowVar bool, allowNull bo
 	case reflect.TypeOf(EnumA(0)):
 		name := rapid.SampledFrom([]string{"RED", "GREEN", "BLUE"}).Draw(t, "enum")
 		gv.Set(reflect.ValueOf(enumAMap[name]))
+		return gv, mk(Val{Kind: "enum", Raw: raw(name)})
+	case reflect.TypeOf(EnumU8(0)):
+		name := rapid.SampledFrom([]string{"LOW", "MID", "HIGH"}).Draw(t, "enumu8")
+		gv.Set(reflect.ValueOf(enumU8Map[name]))
 		return gv, mk(Val{Kind: "enum", Raw: raw(name)})
 	case reflect.TypeOf([]byte(nil)):
 		b := []byte(rapid.SampledFrom([]string{"", "x", "hello", "\x00\xff"}).Draw(t, "bytes"))
